@@ -34,6 +34,12 @@
 //   ADDNET state nc cells* nx xs* ny ys* weight
 //   SETNETS state nl lim* nc cells* nx xs* ny ys* nw weights*
 //   CCHK state                          Circuit::check()
+//   VEC id state L args tail            public Circuit entry points taking a PER-CELL vector that Params.v does not model; CHILD PROCESS
+//                                         id 0      expandCellsByFactor(L factors k/4 given as k, maxDensity "m e", rowSideMargin "m e")
+//                                         id 1..9   fn = (id-1)/3: 0 meanDisruption, 1 rmsDisruption, 2 maxDisruption (a, b, costModel);
+//                                                   (id-1)%3: 0 a has the L entries given and b has nbCells entries, 1 the other way round,
+//                                                   2 both have L entries; args (x y orientation)*L, tail costModel
+//                                       -> "OK value(m e) | state" | "THROW msg | state" | "DIED ..."
 //   ENTER stage state fields(k=0)       stage 0 placeGlobal,1 legalize,2 placeDetailed (const ColoquinteParameters&); CHILD PROCESS
 //                                       (a child killed by a signal -- SIGFPE, SIGSEGV, SIGABRT, SIGXCPU after 30 s of CPU -- prints "DIED signal n ...")
 //   ENTERE stage state effort           stage 0..2 as above with (int effort), 3 = place(effort); CHILD PROCESS
@@ -251,6 +257,29 @@ static std::string circuitCase(const std::string &tag, Toks &t) {
     return circuitOp(c, [&] { c.setNets(lim, cells, xs, ys, ws); });
   }
   if (tag == "CCHK") { readState(t, c); return circuitOp(c, [&] { c.check(); }); }
+  if (tag == "VEC") {
+    // public Circuit entry points with a per-cell vector argument that Params.v does not model (statement oracle + sanitizers only)
+    int id = t.ni(); readState(t, c); int L = t.ni();
+    std::ostringstream val;
+    if (id == 0) {
+      std::vector<float> f; for (int i = 0; i < L; ++i) f.push_back((float)t.next() / 4.0f);
+      double maxDensity = t.nd(), margin = t.nd();
+      std::string r = circuitOp(c, [&] { double v = c.expandCellsByFactor(f, maxDensity, margin); pd(val, v); });
+      return r.compare(0, 2, "OK") == 0 ? "OK" + val.str() + r.substr(2) : r;
+    }
+    if (id >= 1 && id <= 9) {
+      int fn = (id - 1) / 3, which = (id - 1) % 3;
+      PlacementSolution given; for (int i = 0; i < L; ++i) { int x = t.ni(), y = t.ni(), o = t.ni(); given.emplace_back(x, y, (CellOrientation)o); }
+      LegalizationModel cm = (LegalizationModel)t.ni();
+      PlacementSolution full; for (int i = 0; i < c.nbCells(); ++i) full.emplace_back(3 * i + 1, 2 * i - 1, CellOrientation::N);
+      PlacementSolution other = given; for (auto &q : other) { q.position.x += 2; q.position.y -= 1; }
+      const PlacementSolution &a = which == 1 ? full : given;
+      const PlacementSolution &b = which == 0 ? full : which == 1 ? given : other;
+      std::string r = circuitOp(c, [&] { float v = fn == 0 ? c.meanDisruption(a, b, cm) : fn == 1 ? c.rmsDisruption(a, b, cm) : c.maxDisruption(a, b, cm); pd(val, (double)v); });
+      return r.compare(0, 2, "OK") == 0 ? "OK" + val.str() + r.substr(2) : r;
+    }
+    return "BADCASE";
+  }
   if (tag == "ENTER") {
     int stage = t.ni(); readState(t, c);
     ColoquinteParameters *p = anyValid<ColoquinteParameters>();
@@ -361,7 +390,7 @@ int main(int argc, char **argv) {
     if (sigsetjmp(vh_jmp, 1) == 0) {
       try {
         if (tag == "CTOR") { int k = t.ni(), e = t.ni(); res = inChild([&] { return ctorCase(k, e); }); }
-        else if (tag == "ENTERE" || tag == "ENTER") { res = inChild([&] { return circuitCase(tag, t); }); }
+        else if (tag == "ENTERE" || tag == "ENTER" || tag == "VEC") { res = inChild([&] { return circuitCase(tag, t); }); }
         else if (tag == "PSEQ") {
           g_seq.clear();
           int k = t.ni();
